@@ -1,4 +1,4 @@
-//go:build verif
+//go:build verif && (p_all || p_c05)
 
 package props
 
@@ -302,4 +302,41 @@ func c05OneAdj(r mon.ReprCase) bool {
 	}
 
 	return r.Kind == "scaled" && c05OneAdjSet[r.L]
+}
+
+func c05RunConc(c *mon.Ctx, seed uint64) {
+	r := concRng("C05", seed)
+
+	var jobs []func() string
+
+	for i := 0; i < concJobs; i++ {
+		p := gen.Fresh(r)
+		q := p
+
+		if i%2 == 1 {
+			q = gen.PV{P: oracle.Neg(p.P), Tag: "-P"}
+		}
+
+		want := 0
+		if p.P.Equal(q.P) {
+			want = 1
+		}
+
+		a, b := mon.Elem(p.P, gen.DrawRepr(r, false)), mon.Elem(q.P, gen.DrawRepr(r, false))
+		jobs = append(jobs, func() string {
+			if x, y := a.Equal(b), b.Equal(a); x != want || y != want {
+				return fmt.Sprintf("Equal=%d/%d, want %d", x, y, want)
+			}
+
+			if a.IsIdentity() {
+				return "IsIdentity true for a finite point"
+			}
+
+			return ""
+		})
+	}
+
+	if c.RunConcurrent("Equal", "equal-concurrent", 5000, jobs) {
+		c.Seen("conc", seed)
+	}
 }
